@@ -14,6 +14,7 @@ ROOT = os.path.dirname(os.path.dirname(os.path.abspath(__file__)))
 WORK = os.path.join(ROOT, ".work")
 SPEC = os.path.join(ROOT, "spec")
 HARNESS = os.path.join(ROOT, "harness")
+CORPUS_DIR = os.path.join(ROOT, "corpus")
 BIN = os.path.join(HARNESS, "target", "release")
 EVID = os.path.join(ROOT, "evidence")
 REPLAYS = os.path.join(ROOT, "replays")
@@ -177,8 +178,19 @@ def run_tlc(module, cfg, workers=8, timeout=1800, extra=None, env=None, keep_edg
     return r, text
 
 
+def _to_corpus(cdir, kdir, name):
+    import shutil
+    for old in os.listdir(CORPUS_DIR) if os.path.isdir(CORPUS_DIR) else []:
+        if old.startswith(name + "_"):
+            shutil.rmtree(os.path.join(CORPUS_DIR, old))
+    os.makedirs(kdir, exist_ok=True)
+    for f in ("meta.json", "edges.gz", "tlc.out"):
+        if os.path.exists(os.path.join(cdir, f)):
+            shutil.copy(os.path.join(cdir, f), os.path.join(kdir, f))
+
+
 def cached_model_run(name, module, cfg, files, workers=1, timeout=3600, export=True, heap=None,
-                     extra=None):
+                     extra=None, corpus=False):
     """Model-checks `module` with `cfg` (spec-only result, cached by the hash of the spec files).
     With export=True the behaviours printed by the EmitEdge action constraint are stored gzipped.
     Returns dict(stats..., edges_file)."""
@@ -191,11 +203,23 @@ def cached_model_run(name, module, cfg, files, workers=1, timeout=3600, export=T
     cdir = os.path.join(WORK, "cache", f"{name}_{key}")
     meta = os.path.join(cdir, "meta.json")
     edges = os.path.join(cdir, "edges.gz")
+    kdir = os.path.join(CORPUS_DIR, f"{name}_{key}")
     if os.path.exists(meta):
         with open(meta) as fh:
             m = json.load(fh)
         m["cached"] = True
         m["edges_file"] = edges if export else None
+        if corpus and os.environ.get("VERIF_WRITE_CORPUS") and not os.path.exists(os.path.join(kdir, "meta.json")):
+            _to_corpus(cdir, kdir, name)
+        return m
+    # committed corpus: TLC's result and focused export for a big configuration, stored under the hash of the
+    # specification files and the cfg that produced it (a changed spec or cfg misses and TLC runs again)
+    if corpus and os.path.exists(os.path.join(kdir, "meta.json")):
+        with open(os.path.join(kdir, "meta.json")) as fh:
+            m = json.load(fh)
+        m["cached"] = True
+        m["from_committed_corpus"] = True
+        m["edges_file"] = os.path.join(kdir, "edges.gz") if export else None
         return m
     os.makedirs(cdir, exist_ok=True)
     log(f"[tlc] model checking {module} / {cfg} (workers={workers}) ...")
@@ -211,6 +235,8 @@ def cached_model_run(name, module, cfg, files, workers=1, timeout=3600, export=T
     if r["ok"]:
         with open(meta, "w") as fh:
             json.dump(m, fh)
+        if corpus and os.environ.get("VERIF_WRITE_CORPUS"):
+            _to_corpus(cdir, kdir, name)
     m["cached"] = False
     m["edges_file"] = edges if export else None
     m["text_tail"] = text[-2000:]
